@@ -182,8 +182,17 @@ func (h *H) payload() []byte {
 
 // connectFirst starts the application and waits for the first connect attempt to finish.
 func (h *H) appStep(what string) {
+	before := h.App.NResults()
 	h.App.Step()
 	h.SettleReader(what)
+	// The documented read loop waits on ReadBackoff after an error and ends
+	// when that is nil: nil is for ErrClosed only, or the loop (and with it
+	// every retransmission) ends on an error which a retry would get over.
+	if h.Client != nil && h.App.NResults() > before {
+		if r := h.App.Result(before); r.Err != nil && !r.Big && !errors.Is(r.Err, mqtt.ErrClosed) && h.Client.ReadBackoff(r.Err) == nil {
+			h.Failf("ReadSlices returned %q and ReadBackoff gives nil for it: the documented read loop ends although the client is not closed", r.Err)
+		}
+	}
 }
 
 func (h *H) pub(qos byte, retain bool) *sim.Call {
